@@ -145,3 +145,564 @@ Section Calls.
     cbn [fst snd] in *. exact H2.
   Qed.
 End Calls.
+
+(* ================================================================ B. one node, all rules *)
+Section Rules.
+  Variable RS E : Type.
+  Notation rule := (rule RS E).
+  Notation rstate := (rstate RS).
+
+  (* what one rule visitor does at one call (ParallelVisitor's per-visitor logic), without sink *)
+  Definition rule_step (r : rule) (ph : phase) (t : tree) (st : rstate) : rstate * list E :=
+    match ph with
+    | Enter =>
+      match fst st with
+      | SkNone =>
+        let '(a, x', es) := r Enter t (snd st) in
+        ((match a with RIdle => SkNone | RSkip => SkNode (tid t) | RBreakOff => SkBreak end, x'), es)
+      | _ => (st, [])
+      end
+    | Leave =>
+      match fst st with
+      | SkNone =>
+        let '(a, x', es) := r Leave t (snd st) in
+        ((match a with RBreakOff => SkBreak | _ => SkNone end, x'), es)
+      | SkNode id => ((if id =? tid t then SkNone else SkNode id, snd st), [])
+      | SkBreak => (st, [])
+      end
+    end.
+
+  (* all rules at one call, unlimited sink: new states and the errors in reporting order *)
+  Fixpoint step_all (rs : list rule) (sts : list rstate) (b : nat) (ph : phase) (t : tree)
+    : list rstate * list (verr E) :=
+    match rs, sts with
+    | r :: rs', st :: sts' =>
+      let '(st', es) := rule_step r ph t st in
+      let '(sts'', es') := step_all rs' sts' (S b) ph t in
+      (st' :: sts'', map (VErr b) es ++ es')
+    | _, _ => (sts, [])
+    end.
+
+  (* the whole traversal, unlimited sink *)
+  Fixpoint run_spec (rs : list rule) (cs : list (phase * tree)) (sts : list rstate)
+    : list rstate * list (verr E) :=
+    match cs with
+    | [] => (sts, [])
+    | (ph, t) :: r =>
+      let '(sts', es) := step_all rs sts 0%nat ph t in
+      let '(sts'', es') := run_spec rs r sts' in
+      (sts'', es ++ es')
+    end.
+
+  (* the sink of a run whose unlimited error list is [all] *)
+  Definition limited (limit : option nat) (all : list (verr E)) : sink E :=
+    match limit with
+    | None => mkSink all false
+    | Some n => if (length all <=? n)%nat then mkSink all false else mkSink (firstn n all) true
+    end.
+
+  Lemma limited_stable limit l m :
+    s_aborted (limited limit l) = true -> limited limit (l ++ m) = limited limit l.
+  Proof.
+    unfold limited. destruct limit as [n|]; [|discriminate].
+    destruct (length l <=? n)%nat eqn:E1; cbn; [discriminate|]. intros _.
+    apply Nat.leb_gt in E1.
+    assert (length (l ++ m) <=? n = false)%nat as ->.
+    { apply Nat.leb_gt. rewrite app_length. lia. }
+    f_equal. rewrite firstn_app. replace (n - length l)%nat with 0%nat by lia.
+    cbn. apply app_nil_r.
+  Qed.
+
+  Lemma limited_mono limit l m :
+    s_aborted (limited limit (l ++ m)) = false -> s_aborted (limited limit l) = false.
+  Proof.
+    unfold limited. destruct limit as [n|]; auto.
+    destruct (length (l ++ m) <=? n)%nat eqn:E1; cbn; [|discriminate]. intros _.
+    apply Nat.leb_le in E1. rewrite app_length in E1.
+    assert (length l <=? n = true)%nat as -> by (apply Nat.leb_le; lia). reflexivity.
+  Qed.
+
+  Lemma limited_errs limit l : s_aborted (limited limit l) = false -> s_errs (limited limit l) = l.
+  Proof.
+    unfold limited. destruct limit as [n|]; auto.
+    destruct (length l <=? n)%nat; cbn; auto. discriminate.
+  Qed.
+
+  Lemma push_spec limit i es : forall l,
+    s_aborted (limited limit l) = false ->
+    push limit i es (limited limit l) = limited limit (l ++ map (VErr i) es).
+  Proof.
+    induction es as [|e r IH]; intros l Hna; cbn [push map].
+    - rewrite app_nil_r. reflexivity.
+    - rewrite Hna. rewrite (limited_errs limit l Hna).
+      destruct (limit_reached limit (length l)) eqn:Er.
+      + (* the limit is reached: abort *)
+        destruct limit as [n|]; [|discriminate]. cbn in Er. apply Nat.leb_le in Er.
+        unfold limited in *. destruct (length l <=? n)%nat eqn:E1; [|cbn in Hna; discriminate].
+        apply Nat.leb_le in E1. assert (length l = n) by lia. subst n.
+        assert (length (l ++ VErr i e :: map (VErr i) r) <=? length l = false)%nat as ->.
+        { apply Nat.leb_gt. rewrite app_length. cbn. lia. }
+        f_equal. rewrite firstn_app, firstn_all. replace (length l - length l)%nat with 0%nat by lia.
+        cbn. rewrite app_nil_r. reflexivity.
+      + assert (Hl : mkSink (l ++ [VErr i e]) false = limited limit (l ++ [VErr i e])).
+        { unfold limited. destruct limit as [n|]; auto. cbn in Er. apply Nat.leb_gt in Er.
+          assert (length (l ++ [VErr i e]) <=? n = true)%nat as ->; auto.
+          apply Nat.leb_le. rewrite app_length. cbn. lia. }
+        rewrite Hl. rewrite IH.
+        * rewrite <- app_assoc. reflexivity.
+        * rewrite <- Hl. reflexivity.
+  Qed.
+
+  (* par_enter / par_leave with any limit, from a sink that is the limited view of [l] *)
+  Lemma par_step_spec limit (ph : phase) t : forall rs sts b l,
+    let r := match ph with
+             | Enter => par_enter limit rs sts b t (limited limit l)
+             | Leave => par_leave limit rs sts b t (limited limit l)
+             end in
+    snd r = limited limit (l ++ snd (step_all rs sts b ph t)) /\
+    (s_aborted (snd r) = false -> fst r = fst (step_all rs sts b ph t)).
+  Proof.
+    induction rs as [|r0 rs IH]; intros sts b l.
+    - destruct ph; cbn; rewrite app_nil_r; destruct sts; auto.
+    - destruct sts as [|[skp x] sts].
+      { destruct ph; cbn; rewrite app_nil_r; auto. }
+      destruct (s_aborted (limited limit l)) eqn:Ea.
+      + (* already aborted: nothing runs *)
+        assert (Hs : forall m, limited limit (l ++ m) = limited limit l) by (intro; apply limited_stable; exact Ea).
+        destruct ph; cbn [par_enter par_leave]; rewrite Ea; cbn [fst snd]; rewrite Hs;
+          (split; [reflexivity | intro Hc; congruence]).
+      + destruct ph.
+        * cbn [par_enter step_all]. rewrite Ea. unfold rule_step. cbn [fst snd].
+          destruct skp as [|id|].
+          -- destruct (r0 Enter t x) as [[a x'] es].
+             rewrite (push_spec limit b es l Ea).
+             specialize (IH sts (S b) (l ++ map (VErr b) es)). cbn zeta in IH.
+             destruct (par_enter limit rs sts (S b) t (limited limit (l ++ map (VErr b) es))) as [sts2 k2].
+             destruct (step_all rs sts (S b) Enter t) as [sts3 es3]. cbn [fst snd] in *.
+             destruct IH as [I1 I2]. rewrite app_assoc. split; auto.
+             intro Hn. rewrite I2; auto.
+          -- specialize (IH sts (S b) l). cbn zeta in IH.
+             destruct (par_enter limit rs sts (S b) t (limited limit l)) as [sts2 k2].
+             destruct (step_all rs sts (S b) Enter t) as [sts3 es3]. cbn [fst snd app map] in *.
+             destruct IH as [I1 I2]. split; auto. intro Hn. rewrite I2; auto.
+          -- specialize (IH sts (S b) l). cbn zeta in IH.
+             destruct (par_enter limit rs sts (S b) t (limited limit l)) as [sts2 k2].
+             destruct (step_all rs sts (S b) Enter t) as [sts3 es3]. cbn [fst snd app map] in *.
+             destruct IH as [I1 I2]. split; auto. intro Hn. rewrite I2; auto.
+        * cbn [par_leave step_all]. rewrite Ea. unfold rule_step. cbn [fst snd].
+          destruct skp as [|id|].
+          -- destruct (r0 Leave t x) as [[a x'] es].
+             rewrite (push_spec limit b es l Ea).
+             specialize (IH sts (S b) (l ++ map (VErr b) es)). cbn zeta in IH.
+             destruct (par_leave limit rs sts (S b) t (limited limit (l ++ map (VErr b) es))) as [sts2 k2].
+             destruct (step_all rs sts (S b) Leave t) as [sts3 es3]. cbn [fst snd] in *.
+             destruct IH as [I1 I2]. rewrite app_assoc. split; auto.
+             intro Hn. rewrite I2; auto.
+          -- specialize (IH sts (S b) l). cbn zeta in IH.
+             destruct (par_leave limit rs sts (S b) t (limited limit l)) as [sts2 k2].
+             destruct (step_all rs sts (S b) Leave t) as [sts3 es3]. cbn [fst snd app map] in *.
+             destruct IH as [I1 I2]. split; auto. intro Hn. rewrite I2; auto.
+          -- specialize (IH sts (S b) l). cbn zeta in IH.
+             destruct (par_leave limit rs sts (S b) t (limited limit l)) as [sts2 k2].
+             destruct (step_all rs sts (S b) Leave t) as [sts3 es3]. cbn [fst snd app map] in *.
+             destruct IH as [I1 I2]. split; auto. intro Hn. rewrite I2; auto.
+  Qed.
+End Rules.
+
+Arguments rule_step {RS E}. Arguments step_all {RS E}. Arguments run_spec {RS E}. Arguments limited {E}.
+
+(* ================================================================ C. the whole run; the limit *)
+Section Limit.
+  Variable RS E : Type.
+  Notation rule := (rule RS E).
+
+  Lemma par_decide_ib limit (rs : list rule) : idle_or_break _ (par_decide limit rs).
+  Proof.
+    intros ph t ps. unfold par_decide.
+    destruct ph.
+    - destruct (par_enter limit rs (p_rules ps) 0%nat t (p_sink ps)) as [sts sk].
+      destruct (s_aborted sk); cbn; auto.
+    - destruct (par_leave limit rs (p_rules ps) 0%nat t (p_sink ps)) as [sts sk].
+      destruct (s_aborted sk); cbn; auto.
+  Qed.
+
+  Lemma par_decide_spec limit (rs : list rule) ph t sts l :
+    let r := par_decide limit rs ph t (mkP sts (limited limit l)) in
+    let k' := limited limit (l ++ snd (step_all rs sts 0%nat ph t)) in
+    p_sink (snd r) = k' /\
+    (s_aborted k' = true -> fst r = Break) /\
+    (s_aborted k' = false -> fst r = Idle /\ p_rules (snd r) = fst (step_all rs sts 0%nat ph t)).
+  Proof.
+    cbn zeta. unfold par_decide. cbn [p_rules p_sink].
+    pose proof (par_step_spec RS E limit ph t rs sts 0%nat l) as H. cbn zeta in H.
+    destruct ph.
+    - destruct (par_enter limit rs sts 0%nat t (limited limit l)) as [sts2 k2]. cbn [fst snd] in *.
+      destruct H as [H1 H2]. subst k2. cbn [p_sink p_rules]. split; auto. split.
+      + intros ->. reflexivity.
+      + intro Hn. rewrite Hn. split; auto.
+    - destruct (par_leave limit rs sts 0%nat t (limited limit l)) as [sts2 k2]. cbn [fst snd] in *.
+      destruct H as [H1 H2]. subst k2. cbn [p_sink p_rules]. split; auto. split.
+      + intros ->. reflexivity.
+      + intro Hn. rewrite Hn. split; auto.
+  Qed.
+
+  (* the sink at the end of the run = the limited view of the unlimited error list *)
+  Lemma run_calls_spec limit (rs : list rule) : forall cs sts l,
+    p_sink (snd (run_calls _ (par_decide limit rs) cs (mkP sts (limited limit l))))
+    = limited limit (l ++ snd (run_spec rs cs sts)).
+  Proof.
+    induction cs as [|[ph t] cs IH]; intros sts l; cbn [run_calls run_spec].
+    - cbn. rewrite app_nil_r. reflexivity.
+    - pose proof (par_decide_spec limit rs ph t sts l) as H. cbn zeta in H.
+      destruct (par_decide limit rs ph t (mkP sts (limited limit l))) as [a ps]. cbn [fst snd] in H.
+      destruct H as [H1 [H2 H3]].
+      destruct (step_all rs sts 0%nat ph t) as [sts1 es1] eqn:Es. cbn [fst snd] in *.
+      destruct (run_spec rs cs sts1) as [sts2 es2] eqn:Er. cbn [snd].
+      destruct (s_aborted (limited limit (l ++ es1))) eqn:Ea.
+      + rewrite (H2 eq_refl). cbn [snd]. rewrite H1, app_assoc.
+        symmetry. apply limited_stable. exact Ea.
+      + destruct (H3 eq_refl) as [-> Hp].
+        destruct ps as [sts' k']. cbn [p_sink p_rules] in *. subst sts' k'.
+        rewrite IH, Er. cbn [snd]. rewrite app_assoc. reflexivity.
+  Qed.
+
+  Definition init_sts (rs : list (rule * RS)) : list (rstate RS) := map (fun rx => (SkNone, snd rx)) rs.
+
+  (* validate = the limited view of the unlimited error list of the call-list run *)
+  Theorem validate_spec (rs : list (rule * RS)) limit fuel doc :
+    (depth_tree doc <= fuel)%nat ->
+    validate rs limit fuel doc =
+    let k := limited limit (snd (run_spec (map fst rs) (calls_tree doc) (init_sts rs))) in
+    s_errs k ++ (if s_aborted k then [Aborted] else []).
+  Proof.
+    intro Hd. unfold validate.
+    pose proof (visit_calls _ (par_decide limit (map fst rs)) (par_decide_ib limit (map fst rs))
+                            fuel doc (init_state rs) Hd) as H.
+    destruct (visit (pstate RS E) (par_decide limit (map fst rs)) fuel doc (init_state rs)) as [[r ps] lg].
+    cbn [fst snd] in H. subst ps. unfold errors_of.
+    assert (Hi : init_state rs = mkP (init_sts rs) (limited limit [])).
+    { unfold init_state, init_sts, limited. destruct limit; reflexivity. }
+    rewrite Hi, run_calls_spec. cbn [app]. reflexivity.
+  Qed.
+
+  Theorem validate_limit (rs : list (rule * RS)) n fuel doc :
+    (depth_tree doc <= fuel)%nat ->
+    validate rs (Some n) fuel doc =
+    let es := validate rs None fuel doc in
+    if (length es <=? n)%nat then es else firstn n es ++ [Aborted].
+  Proof.
+    intro Hd. rewrite !validate_spec by exact Hd. cbn zeta. unfold limited.
+    cbn [s_errs s_aborted]. rewrite app_nil_r.
+    destruct (length _ <=? n)%nat; cbn [s_errs s_aborted]; [apply app_nil_r | reflexivity].
+  Qed.
+End Limit.
+
+(* ================================================================ D. rules alone and together *)
+Section Union.
+  Variable RS E : Type.
+  Notation rule := (rule RS E).
+
+  (* the errors reported by rule [i], re-tagged as the only rule of a solo run *)
+  Definition proj (i : nat) (es : list (verr E)) : list (verr E) :=
+    flat_map (fun e => match e with
+                       | VErr j x => if (j =? i)%nat then [VErr 0%nat x] else []
+                       | Aborted => []
+                       end) es.
+
+  Lemma proj_app i a b : proj i (a ++ b) = proj i a ++ proj i b.
+  Proof. apply flat_map_app. Qed.
+
+  Lemma proj_map_same i (es : list E) : proj i (map (VErr i) es) = map (VErr 0%nat) es.
+  Proof. induction es; cbn; auto. rewrite Nat.eqb_refl. cbn. f_equal. exact IHes. Qed.
+
+  Lemma proj_map_other i j (es : list E) : i <> j -> proj i (map (VErr j) es) = [].
+  Proof.
+    intro H. induction es; cbn; auto.
+    destruct (j =? i)%nat eqn:Eq; [apply Nat.eqb_eq in Eq; congruence|]. exact IHes.
+  Qed.
+
+  Lemma step_all_tags (rs : list rule) ph t : forall sts b j, (j < b)%nat ->
+    proj j (snd (step_all rs sts b ph t)) = [].
+  Proof.
+    induction rs as [|r rs IH]; intros sts b j Hj; cbn [step_all].
+    - reflexivity.
+    - destruct sts as [|st sts]; [reflexivity|].
+      destruct (rule_step r ph t st) as [st' es].
+      specialize (IH sts (S b) j ltac:(lia)).
+      destruct (step_all rs sts (S b) ph t) as [sts2 es2]. cbn [snd] in *.
+      rewrite proj_app, IH, proj_map_other by lia. reflexivity.
+  Qed.
+
+  (* the i-th rule of a parallel step behaves as if it were alone *)
+  Lemma step_all_proj ph t : forall (rs : list rule) sts b i r st,
+    nth_error rs i = Some r -> nth_error sts i = Some st ->
+    nth_error (fst (step_all rs sts b ph t)) i = Some (fst (rule_step r ph t st)) /\
+    proj (b + i) (snd (step_all rs sts b ph t)) = map (VErr 0%nat) (snd (rule_step r ph t st)).
+  Proof.
+    induction rs as [|r0 rs IH]; intros sts b i r st Hr Hs.
+    - destruct i; discriminate.
+    - destruct sts as [|st0 sts]; [destruct i; discriminate|].
+      cbn [step_all].
+      destruct i as [|i]; cbn [nth_error] in Hr, Hs.
+      + inversion Hr; inversion Hs; subst.
+        destruct (rule_step r ph t st) as [st' es].
+        pose proof (step_all_tags rs ph t sts (S b) b ltac:(lia)) as Ht.
+        destruct (step_all rs sts (S b) ph t) as [sts2 es2]. cbn [fst snd nth_error] in *.
+        rewrite Nat.add_0_r, proj_app, Ht, proj_map_same, app_nil_r. auto.
+      + destruct (rule_step r0 ph t st0) as [st' es].
+        destruct (IH sts (S b) i r st Hr Hs) as [I1 I2].
+        destruct (step_all rs sts (S b) ph t) as [sts2 es2]. cbn [fst snd nth_error] in *.
+        split; auto.
+        rewrite proj_app, proj_map_other by lia. cbn [app].
+        replace (b + S i)%nat with (S b + i)%nat by lia. exact I2.
+  Qed.
+
+  Lemma step_all_single (r : rule) st ph t :
+    step_all [r] [st] 0%nat ph t = ([fst (rule_step r ph t st)], map (VErr 0%nat) (snd (rule_step r ph t st))).
+  Proof.
+    cbn [step_all]. destruct (rule_step r ph t st) as [st' es]. cbn. rewrite app_nil_r. reflexivity.
+  Qed.
+
+  Lemma run_spec_proj (rs : list rule) i r : nth_error rs i = Some r ->
+    forall cs sts st, nth_error sts i = Some st ->
+    proj i (snd (run_spec rs cs sts)) = snd (run_spec [r] cs [st]).
+  Proof.
+    intro Hr. induction cs as [|[ph t] cs IH]; intros sts st Hs; cbn [run_spec].
+    - reflexivity.
+    - rewrite step_all_single.
+      destruct (step_all_proj ph t rs sts 0%nat i r st Hr Hs) as [P1 P2].
+      destruct (step_all rs sts 0%nat ph t) as [sts1 es1]. cbn [fst snd plus] in *.
+      specialize (IH sts1 (fst (rule_step r ph t st)) P1).
+      destruct (run_spec rs cs sts1) as [sts2 es2].
+      destruct (run_spec [r] cs [fst (rule_step r ph t st)]) as [sts3 es3]. cbn [snd] in *.
+      rewrite proj_app, P2, IH. reflexivity.
+  Qed.
+
+  (* every error of the unlimited combined run carries the index of one of the rules *)
+  Definition tag_lt (m : nat) (e : verr E) : Prop :=
+    match e with VErr j _ => (j < m)%nat | Aborted => False end.
+
+  Lemma step_all_tag_lt ph t : forall (rs : list rule) sts b,
+    Forall (tag_lt (b + length rs)) (snd (step_all rs sts b ph t)).
+  Proof.
+    induction rs as [|r rs IH]; intros sts b; cbn [step_all].
+    - constructor.
+    - destruct sts as [|st sts]; [constructor|].
+      destruct (rule_step r ph t st) as [st' es].
+      specialize (IH sts (S b)).
+      destruct (step_all rs sts (S b) ph t) as [sts2 es2]. cbn [snd length] in *.
+      apply Forall_app. split.
+      + apply Forall_forall. intros e He. apply in_map_iff in He as [x [<- _]]. cbn. lia.
+      + replace (b + S (length rs))%nat with (S b + length rs)%nat by lia. exact IH.
+  Qed.
+
+  Lemma run_spec_tag_lt (rs : list rule) : forall cs sts,
+    Forall (tag_lt (length rs)) (snd (run_spec rs cs sts)).
+  Proof.
+    induction cs as [|[ph t] cs IH]; intros sts; cbn [run_spec].
+    - constructor.
+    - pose proof (step_all_tag_lt ph t rs sts 0%nat) as H.
+      destruct (step_all rs sts 0%nat ph t) as [sts1 es1].
+      specialize (IH sts1). destruct (run_spec rs cs sts1) as [sts2 es2]. cbn [snd] in *.
+      apply Forall_app. split; auto.
+  Qed.
+
+  Theorem validate_projection (rs : list (rule * RS)) fuel doc i rx :
+    (depth_tree doc <= fuel)%nat -> nth_error rs i = Some rx ->
+    proj i (validate rs None fuel doc) = validate [rx] None fuel doc.
+  Proof.
+    intros Hd Hi. rewrite !validate_spec by exact Hd. cbn zeta. unfold limited.
+    cbn [s_errs s_aborted]. rewrite !app_nil_r.
+    cbn [map init_sts].
+    apply run_spec_proj.
+    - rewrite nth_error_map, Hi. reflexivity.
+    - unfold init_sts. rewrite nth_error_map, Hi. reflexivity.
+  Qed.
+
+  Theorem validate_tags (rs : list (rule * RS)) fuel doc :
+    (depth_tree doc <= fuel)%nat -> Forall (tag_lt (length rs)) (validate rs None fuel doc).
+  Proof.
+    intro Hd. rewrite validate_spec by exact Hd. cbn zeta. unfold limited.
+    cbn [s_errs s_aborted]. rewrite app_nil_r.
+    pose proof (run_spec_tag_lt (map fst rs) (calls_tree doc) (init_sts _ _ rs)) as H.
+    rewrite map_length in H. exact H.
+  Qed.
+End Union.
+
+(* ---- the combined error list is a permutation of the solo lists (multiset union) ---- *)
+From Coq Require Import Permutation.
+
+Section UnionPerm.
+  Variable RS E : Type.
+  Notation rule := (rule RS E).
+
+  Definition retag (i : nat) (e : verr E) : verr E :=
+    match e with VErr _ x => VErr i x | Aborted => Aborted end.
+
+  Lemma flat_map_ext_in {A B} (f g : A -> list B) l :
+    (forall a, In a l -> f a = g a) -> flat_map f l = flat_map g l.
+  Proof.
+    induction l as [|a l IH]; cbn; intro H; auto.
+    rewrite (H a (or_introl eq_refl)), IH; auto.
+  Qed.
+
+  Lemma flat_map_nil {A B} (l : list A) : flat_map (fun _ => @nil B) l = [].
+  Proof. induction l; cbn; auto. Qed.
+
+  Lemma perm_flat_map_app {A B} (f g : A -> list B) l :
+    Permutation (flat_map (fun a => f a ++ g a) l) (flat_map f l ++ flat_map g l).
+  Proof.
+    induction l as [|a l IH]; cbn; auto.
+    rewrite IH. rewrite <- !app_assoc. apply Permutation_app_head.
+    apply Permutation_app_swap_app.
+  Qed.
+
+  Lemma flat_map_single {B} (y : nat -> B) j : forall m b, (b <= j < b + m)%nat ->
+    flat_map (fun i => if (j =? i)%nat then [y i] else []) (seq b m) = [y j].
+  Proof.
+    induction m as [|m IH]; intros b H; [lia|]. cbn [seq flat_map].
+    destruct (j =? b)%nat eqn:Eq.
+    - apply Nat.eqb_eq in Eq. subst b. cbn. f_equal.
+      rewrite (flat_map_ext_in _ (fun _ => [])); [apply flat_map_nil|].
+      intros a Ha. apply in_seq in Ha. destruct (j =? a)%nat eqn:E2; auto.
+      apply Nat.eqb_eq in E2. lia.
+    - apply Nat.eqb_neq in Eq. cbn [app]. apply IH. lia.
+  Qed.
+
+  Lemma partition_perm m : forall es : list (verr E), Forall (tag_lt E m) es ->
+    Permutation es (flat_map (fun i => map (retag i) (proj E i es)) (seq 0 m)).
+  Proof.
+    induction es as [|e es IH]; intro H.
+    - cbn. rewrite flat_map_nil. constructor.
+    - inversion H as [|? ? He Hes]; subst. destruct e as [j x|]; [|contradiction]. cbn in He.
+      assert (Hf : forall i, map (retag i) (proj E i (VErr j x :: es))
+                             = (if (j =? i)%nat then [VErr i x] else []) ++ map (retag i) (proj E i es)).
+      { intro i. cbn. destruct (j =? i)%nat; reflexivity. }
+      rewrite (flat_map_ext_in _ _ _ (fun i _ => Hf i)).
+      rewrite perm_flat_map_app.
+      rewrite (flat_map_single (fun i => VErr i x) j m 0%nat) by lia.
+      cbn [app]. constructor. apply IH. exact Hes.
+  Qed.
+
+  Theorem validate_union (rs : list (rule * RS)) fuel doc :
+    (depth_tree doc <= fuel)%nat ->
+    Permutation (validate rs None fuel doc)
+                (flat_map (fun i => match nth_error rs i with
+                                    | Some rx => map (retag i) (validate [rx] None fuel doc)
+                                    | None => []
+                                    end) (seq 0 (length rs))).
+  Proof.
+    intro Hd.
+    assert (Heq : flat_map (fun i => map (retag i) (proj E i (validate rs None fuel doc))) (seq 0 (length rs))
+                  = flat_map (fun i => match nth_error rs i with
+                                       | Some rx => map (retag i) (validate [rx] None fuel doc)
+                                       | None => []
+                                       end) (seq 0 (length rs))).
+    { apply flat_map_ext_in. intros i Hi. apply in_seq in Hi.
+      destruct (nth_error rs i) as [rx|] eqn:En.
+      - rewrite (validate_projection RS E rs fuel doc i rx Hd En). reflexivity.
+      - apply nth_error_None in En. lia. }
+    rewrite <- Heq. apply partition_perm. apply validate_tags. exact Hd.
+  Qed.
+End UnionPerm.
+
+(* ================================================================ E. descriptions *)
+(* two documents that agree everywhere except inside slots outside the validation key table *)
+Fixpoint agree_tree (keep : N -> nat -> bool) (t t' : tree) : Prop :=
+  match t, t' with
+  | Node k i ss, Node k' i' ss' => k = k' /\ i = i' /\ agree_slots keep k ss ss' 0%nat
+  end
+with agree_slots (keep : N -> nat -> bool) (k : N) (ss ss' : slots) (j : nat) : Prop :=
+  match ss, ss' with
+  | SNil, SNil => True
+  | SCons sl r, SCons sl' r' =>
+    (if keep k j then agree_slot keep sl sl' else True) /\ agree_slots keep k r r' (S j)
+  | _, _ => False
+  end
+with agree_slot (keep : N -> nat -> bool) (sl sl' : slot) : Prop :=
+  match sl, sl' with
+  | SNone, SNone => True
+  | SOne t, SOne t' => agree_tree keep t t'
+  | SArr l, SArr l' => agree_trees keep l l'
+  | _, _ => False
+  end
+with agree_trees (keep : N -> nat -> bool) (l l' : trees) : Prop :=
+  match l, l' with
+  | TNil, TNil => True
+  | TCons t r, TCons t' r' => agree_tree keep t t' /\ agree_trees keep r r'
+  | _, _ => False
+  end.
+
+Lemma agree_mask keep :
+  forall t t', agree_tree keep t t' -> mask_tree keep t = mask_tree keep t'.
+Proof.
+  apply (tree_mut
+           (fun t => forall t', agree_tree keep t t' -> mask_tree keep t = mask_tree keep t')
+           (fun ss => forall k ss' j, agree_slots keep k ss ss' j -> mask_slots keep k ss j = mask_slots keep k ss' j)
+           (fun sl => forall sl', agree_slot keep sl sl' -> mask_slot keep sl = mask_slot keep sl')
+           (fun l => forall l', agree_trees keep l l' -> mask_trees keep l = mask_trees keep l')).
+  - intros k i ss IH [k' i' ss'] [-> [-> H]]. cbn. f_equal. apply IH. exact H.
+  - intros k [|? ?] j H; cbn in *; [reflexivity | contradiction].
+  - intros sl IHsl r IHr k [|sl' r'] j H; cbn in *; [contradiction|].
+    destruct H as [H1 H2]. rewrite (IHr k r' (S j) H2).
+    destruct (keep k j); [rewrite (IHsl sl' H1)|]; reflexivity.
+  - intros [| |] H; cbn in *; try contradiction; reflexivity.
+  - intros t IH [|t'|] H; cbn in *; try contradiction. f_equal. apply IH. exact H.
+  - intros l IH [| |l'] H; cbn in *; try contradiction. f_equal. apply IH. exact H.
+  - intros [|? ?] H; cbn in *; [reflexivity | contradiction].
+  - intros t IHt r IHr [|t' r'] H; cbn in *; [contradiction|].
+    destruct H as [H1 H2]. rewrite (IHt t' H1), (IHr r' H2). reflexivity.
+Qed.
+
+Theorem validate_keys_agree {RS E} keep (rs : list (rule RS E * RS)) limit fuel d d' :
+  agree_tree keep d d' -> validate_keys keep rs limit fuel d = validate_keys keep rs limit fuel d'.
+Proof. intro H. unfold validate_keys. rewrite (agree_mask keep d d' H). reflexivity. Qed.
+
+(* no visitor call ever concerns a node below a slot outside the key table: the calls of the
+   masked document are the calls of the document restricted to kept slots *)
+Fixpoint kept_calls_tree (keep : N -> nat -> bool) (t : tree) : list (phase * N) :=
+  match t with
+  | Node k i ss => (Enter, i) :: kept_calls_slots keep k ss 0%nat ++ [(Leave, i)]
+  end
+with kept_calls_slots (keep : N -> nat -> bool) (k : N) (ss : slots) (j : nat) : list (phase * N) :=
+  match ss with
+  | SNil => []
+  | SCons sl r =>
+    (if keep k j then
+       match sl with
+       | SNone => []
+       | SOne c => kept_calls_tree keep c
+       | SArr l => kept_calls_trees keep l
+       end
+     else []) ++ kept_calls_slots keep k r (S j)
+  end
+with kept_calls_trees (keep : N -> nat -> bool) (l : trees) : list (phase * N) :=
+  match l with
+  | TNil => []
+  | TCons c r => kept_calls_tree keep c ++ kept_calls_trees keep r
+  end.
+
+Lemma masked_calls keep :
+  forall t, map (fun c => (fst c, tid (snd c))) (calls_tree (mask_tree keep t)) = kept_calls_tree keep t.
+Proof.
+  apply (tree_mut
+           (fun t => map (fun c => (fst c, tid (snd c))) (calls_tree (mask_tree keep t)) = kept_calls_tree keep t)
+           (fun ss => forall k j, map (fun c => (fst c, tid (snd c))) (calls_slots (mask_slots keep k ss j))
+                                  = kept_calls_slots keep k ss j)
+           (fun sl => map (fun c => (fst c, tid (snd c)))
+                          (match mask_slot keep sl with
+                           | SNone => [] | SOne c => calls_tree c | SArr l => calls_trees l end)
+                      = match sl with
+                        | SNone => [] | SOne c => kept_calls_tree keep c | SArr l => kept_calls_trees keep l end)
+           (fun l => map (fun c => (fst c, tid (snd c))) (calls_trees (mask_trees keep l)) = kept_calls_trees keep l)).
+  - intros k i ss IH. cbn [mask_tree calls_tree kept_calls_tree map fst snd tid].
+    rewrite map_app, IH. reflexivity.
+  - reflexivity.
+  - intros sl IHsl r IHr k j. cbn [mask_slots calls_slots kept_calls_slots].
+    rewrite map_app, IHr. destruct (keep k j); [rewrite IHsl|]; reflexivity.
+  - reflexivity.
+  - intros t IH. cbn. exact IH.
+  - intros l IH. cbn. exact IH.
+  - reflexivity.
+  - intros t IHt r IHr. cbn [mask_trees calls_trees kept_calls_trees]. rewrite map_app, IHt, IHr. reflexivity.
+Qed.
